@@ -71,12 +71,39 @@ def check(proj):
 
 
 def search():
+    hit = members_live_on_their_owners_page()
+    if hit:
+        return hit
     for label, files in projects():
         proj = realrun.build_project(files, display=["public", "private", "protected"], correlate=False)
         bad = check(proj)
         if bad:
             return {"confirmed": True, "input": {"files": files}, "actual": bad[:3], "expected": "distinct page-bearing entities get distinct (directory, ident)",
                     "how": f"bounded search with the real NameSelector on a generated project: {label}"}
+    return None
+
+
+def members_live_on_their_owners_page():
+    """the address of a component or binding listed on a type's page is that page plus its anchor - also for what the type inherits (copies of the parent's generic bindings included)"""
+    src = ("module shapes\n  implicit none\n  type :: shape\n    integer :: id\n  contains\n    procedure :: scale_i, scale_r\n    generic :: scale => scale_i, scale_r\n    procedure :: area\n  end type shape\n"
+           "  type, extends(shape) :: circle\n    real :: r\n  end type circle\n  type, extends(circle) :: disc\n  end type disc\ncontains\n"
+           "  subroutine scale_i(self, k)\n    class(shape) :: self\n    integer :: k\n  end subroutine scale_i\n  subroutine scale_r(self, k)\n    class(shape) :: self\n    real :: k\n  end subroutine scale_r\n"
+           "  subroutine area(self)\n    class(shape) :: self\n  end subroutine area\nend module shapes\n")
+    proj = realrun.build_project({"src/shapes.f90": src})
+    bad = []
+    for t in proj.types:
+        page = t.get_url()
+        for e in list(t.boundprocs) + list(t.variables):
+            if getattr(e, "parent", None) is not t:
+                continue        # an inherited component is shown with a link to where it is declared
+            u = e.get_url()
+            if u and u.split("#")[0] != page:
+                bad.append(f"{t.name}%{e.name}: listed on {page}, address {u}")
+        for bp in t.boundprocs:
+            if getattr(bp, "generic", False) and bp.get_url() and bp.get_url().split("#")[0] != page:
+                bad.append(f"generic {t.name}%{bp.name}: listed on {page} with its own anchor, address {bp.get_url()}")
+    if bad:
+        return {"confirmed": True, "input": {"source": src}, "actual": sorted(set(bad))[:5], "expected": "page of the type + '#' + anchor", "how": "real Project + correlate: get_url() of the members of three types in an extension chain"}
     return None
 
 
